@@ -56,7 +56,7 @@ CLAIMED = {
               "nested: transparent where p succeeds; strategy output plus exactly one extra error otherwise; both fail => failure, nothing "
               "consumed; skip_until minimal; skip_then_retry_until accepts only error-free retries — equal to the reference semantics for all "
               "inputs up to N=3..4.", "oracle = refsem RecVia/RecSkipUntil/RecSkipRetry"),
-    "C09": _t('Whole-parser: concrete operator tables against the textbook binding-power reading of every byte string: quick {prefix(2), infix(left 1)} as a tuple table and as a Vec of boxed operators, and {infix(left 1), postfix(3)} at N=3; thorough adds the 3-operator table at N=3, {prefix(P), infix} P in {0,2} at N=4, {infix left(1), infix left|right(2)} and a nested-prefix table at N=5. One operator step of Infix/Prefix/Postfix (the real do_parse_* code) with SYMBOLIC power (<2^15), associativity and min_power and the recursion stubbed: attempted iff left_power >= min_power, operand requested with right_power, left/right power ordering, an operator whose operand is missing is left unconsumed.',
+    "C09": _t('Whole-parser: concrete operator tables against the textbook binding-power reading of every byte string: quick {prefix(2), infix(left 1)} as a tuple table and as a Vec of boxed operators, and {infix(left 1), postfix(3)} at N=3; thorough adds the 3-operator table at N=3 and {infix left(1), infix left|right(2)} at N=5. One operator step of Infix/Prefix/Postfix (the real do_parse_* code) with SYMBOLIC power (<2^15), associativity and min_power and the recursion stubbed: attempted iff left_power >= min_power, operand requested with right_power, left/right power ordering, an operator whose operand is missing is left unconsumed.',
               'oracle = textbook reading written out per input pattern (cross-checked natively against a recursive textbook evaluator); recursion stub'),
     "C10": _t('One generic grammar instantiated at &[u8], &[u8;3], BoxedStream (over a 3-token array), IterInput, Input::map, map_span and &str (ASCII): same acceptance, output with spans, error count and error position as the &[u8] run for all inputs up to N=3; a Stream over a pull-counting iterator pulls each item at most once however much the parser backtracks and accepts what the slice grammar accepts.',
               'no oracle: differential between input kinds (Stream with symbolic length: closed-form acceptance oracle)'),
